@@ -231,7 +231,22 @@ class C10Bounded(Bounded):
                     fail("timespan-seconds-query", f"backend rendering windows in seconds, timespan {spec}: query {q[-1]!r} does not carry {n * UNIT[unit]}", [spec])
             except Exception as e:
                 fail("timespan-seconds-query", f"backend rendering windows in seconds, timespan {spec}: {type(e).__name__}: {e}", [spec])
+        # temporal rules without a condition: the default is "every referenced rule occurred" = count >= number of referenced RULES, however
+        # the references are written (a single reference may be given as text)
+        import re as _re2
+        for ctype, rules in itertools.product(("temporal", "temporal_ordered"), ("n", "q_3", ["n"], ["n", "m"], ["n", "m", "q_3"], [BASE["p"]["id"], "n"])):
+            ev_n += 1
+            nontriv += 1
+            try:
+                q = TextQueryTestBackend().convert(SigmaCollection.from_dicts([copy.deepcopy(d) for d in BASE.values()] + [{"title": "c", "correlation": {"type": ctype, "rules": rules, "timespan": "5m", "group-by": ["u"]}}]))[-1]
+                m = _re2.search(r"eventtype_count >= (\d+)", str(q))
+                got = int(m.group(1)) if m else None
+            except Exception as e:
+                got = f"{type(e).__name__}: {e}"
+            want = 1 if isinstance(rules, str) else len(rules)
+            if got != want:
+                fail("default-temporal-condition", f"{ctype} correlation without condition over the rules {rules!r}: the query asks for a count >= {got}, the default is the number of referenced rules = {want}", [ctype, rules])
         return {"evaluations": ev_n, "distinct_nontrivial": nontriv, "failures": fails[:20], "failure_counts": seen,
-                "bound": f"timespans 0..400 (and four larger counts) x 7 units in seconds; all 24 orders of 4 correlation rules with different aliases over the same referenced rules on one backend object; {len(docs)} correlation rules: 8 types x rule lists (1..3 rules, referenced by name and by id, single and multi-query rules) x group-by (none, 1, 2 fields incl. one needing quotes) x 4 timespan units x 6 operators "
+                "bound": f"default conditions of temporal rules (12); timespans 0..400 (and four larger counts) x 7 units in seconds; all 24 orders of 4 correlation rules with different aliases over the same referenced rules on one backend object; {len(docs)} correlation rules: 8 types x rule lists (1..3 rules, referenced by name and by id, single and multi-query rules) x group-by (none, 1, 2 fields incl. one needing quotes) x 4 timespan units x 6 operators "
                          f"(counts incl. 0) x aliases; 16 extended conditions x 2 group-by settings compared as boolean functions",
                 "rule": "distinct correlation rules; non-trivial = converted", "samples": samples, "exhaustive": True}
